@@ -57,6 +57,12 @@ const (
 	VerifEvTxnLock   = 134 // post: OpenTransaction owns the write lock
 	VerifEvTxnUnlock = 135 // pre:  Transaction.setDone releases it
 
+	// Data carried by the write path (what the leader merges, journals and inserts).
+	VerifEvMergeInfo   = 140 // a=incoming writer b=kind<<62|sync<<61|internalLen   post: what the leader found in the writeMerge message (kind 0 batch, 1 put, 2 delete; internalLen = batch.internalLen, or len(key)+len(value)+8 for a put/delete); reported right after VerifEvMergeRecv
+	VerifEvJournalArgs = 141 // a=seq b=sync<<62|len(batches)<<40|batchesLen(batches)   entry of writeJournal: the arguments actually passed
+	VerifEvJournalSize = 142 // a=leader (first key of batches[0]) b=sum of batch.internalLen over batches   entry of writeJournal
+	VerifEvPutMem      = 143 // a=first writer of the batch b=batch.Len()<<40|seq   pre: batch.putMem(seq, mdb) in writeLocked's loop
+
 	VerifYpMergeRecv = 100 // leader has received a merge request, before the size test
 	VerifYpUnlock    = 101 // entry of unlockWrite
 	VerifYpLocked    = 102 // entry of writeLocked (lock owned, before flush)
@@ -102,4 +108,39 @@ func verifB(b bool) uint64 {
 		return 1
 	}
 	return 0
+}
+
+// verifMergeInfo packs what a writeMerge message carries: kind<<62|sync<<61|internalLen
+// (kind 0 batch, 1 put, 2 delete).
+func verifMergeInfo(m writeMerge) uint64 {
+	if m.batch != nil {
+		return verifB(m.sync)<<61 | uint64(m.batch.internalLen)
+	}
+	kind := uint64(1)
+	if m.keyType == keyTypeDel {
+		kind = 2
+	}
+	return kind<<62 | verifB(m.sync)<<61 | uint64(len(m.key)+len(m.value)+8)
+}
+
+// verifJournalArgs packs the arguments of writeJournal: sync<<62|len(batches)<<40|batchesLen(batches).
+func verifJournalArgs(batches []*Batch, sync bool) uint64 {
+	return verifB(sync)<<62 | uint64(len(batches))<<40 | uint64(batchesLen(batches))
+}
+
+// verifBatchesBytes is the sum of internalLen over the batches.
+func verifBatchesBytes(batches []*Batch) uint64 {
+	n := 0
+	for _, b := range batches {
+		n += b.internalLen
+	}
+	return uint64(n)
+}
+
+// verifBatchesWID is the writer id of the first record of the first batch (0 when there is none).
+func verifBatchesWID(batches []*Batch) uint64 {
+	if len(batches) == 0 {
+		return 0
+	}
+	return verifWID(batches[0], nil)
 }
